@@ -25,7 +25,9 @@ Proof.
   (* key fact: reading value 1 means reading the latest message *)
   assert (Hkey : val m = 1 -> p = 0).
   { intros H1. destruct p as [|p]; [reflexivity|]. exfalso.
-    pose proof (J7 s I t (S p) m Hr ltac:(lia) Hn Hnhb). lia. }
+    assert (Hun : unseen s t (S p)).
+    { intros m' Hin. split; [exact (Hnhb m' Hin)|]. intros c Hc. exfalso. exact (lends_from_false s t c Hlf Hc). }
+    pose proof (J7 s I t (S p) m Hr ltac:(lia) Hn Hun). lia. }
   set (c' := tick (join (clk (T s t)) (view m)) t).
   set (x' := {| clk := c'; pend := pend (T s t); refs := refs (T s t);
                 excl := excl (T s t) || Nat.eqb (val m) 1; mustfree := mustfree (T s t); started := true;
@@ -79,10 +81,7 @@ Proof.
     + intros He. destruct (J5 s I u He) as (_ & H1 & Ht1 & _).
       pose proof (T2_le_total s u t Hne'). lia.
   - intros Hf; congruence.
-  - intros u q m0. rewrite HT. destruct (Nat.eqb_spec u t) as [->|Hne']; cbn [refs clk x'].
-    + intros Hr' Hq Hn0 Hall0. apply (J7 s I t q m0 Hr Hq Hn0).
-      intros m' Hin Hhb. apply (Hall0 m' Hin). eapply hb_mono; [exact Hcc | exact Hhb].
-    + apply (J7 s I u q m0).
+  - apply J7_upd; auto.
   - intros u. rewrite HT. destruct (Nat.eqb_spec u t) as [->|Hne']; cbn [started x']; [discriminate|].
     apply (J8 s I u).
   - intros _ H0. rewrite Htot in H0. pose proof (total_ge (ths s) t). unfold T, getth in *. lia.
@@ -121,7 +120,7 @@ Proof.
     destruct (Nat.eqb_spec u t) as [->|Hne']; cbn [mustfree excl x']; [auto|]. split.
     + destruct (mustfree (T s u)) eqn:Hm; [|reflexivity]. specialize (Huniq u Hm). contradiction.
     + destruct (excl (T s u)) eqn:He; [|reflexivity]. destruct (J5 s I u He) as (_ & H1 & _). rewrite Hr0 in H1. lia.
-  - intros u q m0. rewrite HT. destruct (Nat.eqb_spec u t) as [->|Hne']; cbn [refs x']; rewrite Hr0; lia.
+  - apply J7_upd; auto.
   - intros u. rewrite HT. destruct (Nat.eqb_spec u t) as [->|Hne']; cbn [started x']; [discriminate|].
     apply (J8 s I u).
   - discriminate.
